@@ -473,6 +473,29 @@ func (w *world) hookFor(pos, kind string, count *int) (*authkit.Server, func(*au
 				if had {
 					ex.Resp.Ns = append(dropProofs(ex.Resp.Ns), w.foreignProof()...)
 				}
+			case "foreigndeny":
+				// NXDOMAIN for whatever was asked: the zone's genuine signed SOA plus unsigned NSEC records that
+				// live in the PARENT zone and span the whole child
+				neg, _ := w.zone.Answer(dns.Question{Name: "nope." + zoneName, Qtype: dns.TypeA, Qclass: dns.ClassINET}, true)
+				var ns []dns.RR
+				if neg != nil {
+					for _, rr := range neg.Ns {
+						if rr.Header().Rrtype == dns.TypeSOA {
+							ns = append(ns, rr)
+						}
+						if s, ok := rr.(*dns.RRSIG); ok && s.TypeCovered == dns.TypeSOA {
+							ns = append(ns, rr)
+						}
+					}
+				}
+				ns = append(ns,
+					&dns.NSEC{Hdr: dns.RR_Header{Name: "test.", Rrtype: dns.TypeNSEC, Class: dns.ClassINET, Ttl: 300}, NextDomain: "evil.test.",
+						TypeBitMap: []uint16{dns.TypeNS, dns.TypeSOA, dns.TypeRRSIG, dns.TypeNSEC, dns.TypeDNSKEY}},
+					&dns.NSEC{Hdr: dns.RR_Header{Name: "evil.test.", Rrtype: dns.TypeNSEC, Class: dns.ClassINET, Ttl: 300}, NextDomain: "zzz.test.",
+						TypeBitMap: []uint16{dns.TypeNS, dns.TypeDS, dns.TypeRRSIG, dns.TypeNSEC}})
+				ex.Resp.Rcode = dns.RcodeNameError
+				ex.Resp.Answer = nil
+				ex.Resp.Ns = ns
 			case "fakedname":
 				// the answer becomes a forged CNAME with a junk signature naming the real signer, "justified"
 				// by an unsigned DNAME that the signed zone's PARENT would own, in the authority section
